@@ -311,7 +311,7 @@ Example C09_example_programs_assign_on_their_copy :
     = [false; false; false; false; false; false; false; false] /\
   (let w1 := run_world fixed world0 [OBuild positioned] in
    let s := nth 0 (w_sets w1) VNone in
-   map (fun k => wr_fp (writeP fixed k dflt_opts winst0 (w_st w1) s)) [W_DFXP; W_SAMI]
+   map (fun k => fp_of (wr_fp (writeP fixed k dflt_opts winst0 (w_st w1) s))) [W_DFXP; W_SAMI]
      = [[(KCaption, 5%Z)]; [(KCaption, 5%Z)]]).
 Proof. exact writers_assign_on_their_copy. Qed.
 
